@@ -98,7 +98,8 @@ func c14DrawAttrs(t *kernel.Tape, sys resolve.System) []uni.KV {
 	case 2:
 		out = append(out, kvp(int(version.Tags), "latest"))
 	case 3:
-		out = append(out, kvp(int(version.Tags), "next,beta"))
+		// other dist-tags, some of which merely contain the word "latest"
+		out = append(out, kvp(int(version.Tags), [...]string{"next,beta", "latest-1", "next,latest", "latest-rc,beta", "oldlatest"}[t.Choose(5)]))
 	case 4:
 		out = append(out, kvp(int(version.Redirect), "elsewhere"))
 	case 5:
